@@ -57,6 +57,8 @@ type UnitResult struct {
 	Replays     int              `json:"determinism_replays"`
 	Audits      int              `json:"merge_audits"`
 	Caps        []string         `json:"caps_hit,omitempty"`
+	Notes       []string         `json:"notes,omitempty"`
+	Prescribed  int              `json:"bound_prescribed"`
 	Samples     []string         `json:"samples,omitempty"`
 	Viol        []FoundViolation `json:"violations,omitempty"`
 	Infra       string           `json:"infra,omitempty"`
@@ -291,7 +293,7 @@ func report(prop, tier string, results []UnitResult, wall time.Duration) int {
 	meta := propMeta[prop]
 	tot := UnitResult{Exhaustive: true, Unbounded: true, Bound: 1 << 30}
 	var samples []interface{}
-	var caps []string
+	var caps, notes []string
 	var unitSumm []map[string]interface{}
 	infra := false
 	var viols []FoundViolation
@@ -318,6 +320,9 @@ func report(prop, tier string, results []UnitResult, wall time.Duration) int {
 		for _, c := range r.Caps {
 			caps = append(caps, r.Name+": "+c)
 		}
+		for _, c := range r.Notes {
+			notes = append(notes, r.Name+": "+c)
+		}
 		if len(samples) < 6 {
 			for _, s := range r.Samples {
 				if len(samples) < 6 {
@@ -325,7 +330,7 @@ func report(prop, tier string, results []UnitResult, wall time.Duration) int {
 				}
 			}
 		}
-		unitSumm = append(unitSumm, map[string]interface{}{"unit": r.Name, "executions": r.Execs, "states": r.States, "transitions": r.Transitions, "bound_completed": r.Bound, "exhaustive": r.Exhaustive, "distinct_outcomes": r.Outcomes, "wall_s": r.WallS})
+		unitSumm = append(unitSumm, map[string]interface{}{"unit": r.Name, "executions": r.Execs, "states": r.States, "transitions": r.Transitions, "bound_completed": r.Bound, "bound_prescribed": r.Prescribed, "exhaustive": r.Exhaustive, "distinct_outcomes": r.Outcomes, "wall_s": r.WallS})
 		for _, v := range r.Viol {
 			if v.Property == prop || v.Property == "*" {
 				v.Property = prop
@@ -385,6 +390,7 @@ func report(prop, tier string, results []UnitResult, wall time.Duration) int {
 		"determinism_replays":           tot.Replays,
 		"merge_audits":                  tot.Audits,
 		"caps_hit":                      caps,
+		"bonus_deepening":               notes,
 		"exhaustive":                    tot.Exhaustive && !infra,
 		"units":                         unitSumm,
 		"explanation":                   meta.Explanation,
